@@ -95,7 +95,8 @@ Section Statements.
     map (@somes peak) rows = map (fun x => kept peak value mi (detect x)) xs.
   Proof. exact (centroid_rows_up_to_padding frame peak detect value). Qed.
 
-  (* bottom-up *)
+  (* bottom-up: the inference model's batch (before _make_labeled_frames_from_generator; the LabeledFrame records with
+     the all-NaN drop and max_instances are Flat.bottomup_frames, c12_bottomup_frames_* below) *)
   Theorem c12_bottomup_batch_is_per_frame : forall fs, bu_batch fs = map bu_one fs.
   Proof. exact (bottomup_batch_is_per_frame frame peak inst detect group). Qed.
 
@@ -107,13 +108,20 @@ Section Statements.
     Permutation fs fs' -> Permutation (bu_batch fs) (bu_batch fs').
   Proof. exact (bottomup_batch_perm frame peak inst detect group). Qed.
 
-  (* crop index sample * channels + channel addresses the peak's own sample and channel *)
+  (* crop index sample * channels + channel addresses the peak's own sample and channel.
+     An arithmetic fact about the flattened map list (`patch_source`); the pipelines that USE this index are
+     Flat.local_flat (find_local_peaks: c12_local_peaks_refined_on_own_map) and Flat.global_flat (find_global_peaks:
+     c12_global_peaks_flat_is_per_frame) below, both proved through it *)
   Theorem c12_crop_index_own_sample : forall xs C b c x,
     (forall y, In y xs -> length (cmaps y) = C) -> (c < C)%nat -> nth_error xs b = Some x ->
     patch_source frame chan cmaps xs C b c = nth_error (cmaps x) c.
   Proof. exact (patch_source_own frame chan cmaps). Qed.
 
-  (* single instance (global peaks + refinement through the flattened index) *)
+  (* single instance, CLOSED FORM (`_def`): `single_batch` reads the rough peak and the patch of entry (b, c) through the
+     same index b * C + c written down directly, so this theorem is the index arithmetic above and nothing about the
+     valid_idx gather / scatter of find_global_peaks.  The code's path (flatten -> valid_idx -> crop -> scatter ->
+     reshape) is Flat.global_flat; c12_global_peaks_flat_is_per_frame proves the per-frame statement about THAT
+     definition and c12_global_peaks_flat_is_closed_form that it equals this closed form *)
   Theorem c12_single_batch_is_per_frame : forall C xs,
     (forall y, In y xs -> length (cmaps y) = C) ->
     single_batch frame peak inst chan cmaps rough refine C xs
@@ -363,6 +371,9 @@ Section ScaleStatements.
   Theorem c12_bottomup_scaled_is_per_frame : forall qs, bu (assemble qs) = map bu1 qs.
   Proof. exact (bottomup_scaled_is_per_frame image frame size sizematch orig_size peak inst detect group_s). Qed.
 
+  (* the five c12_single_scaled_* theorems have ONE content: `single_scaled` is `map` of an abstract per-sample
+     `decode_s image factor` over `samples (assemble qs)`, i.e. the alignment of the five lists; the inside of
+     decode_s (find_global_peaks on the batch) is Flat.global_flat / c12_single_frames_* *)
   Theorem c12_single_scaled_is_per_frame : forall qs, si (assemble qs) = map si1 qs.
   Proof. exact (single_scaled_is_per_frame image frame size sizematch orig_size inst decode_s). Qed.
 
@@ -466,4 +477,258 @@ Print Assumptions c12_one_factor_per_batch_depends_on_batch_mates.
 Example ex_mixed_sizes :
   srun (CEff (Some 144%Z) (Some 160%Z) 2%nat [(0%nat, 0%nat, (96%Z, 96%Z)); (0%nat, 1%nat, (144%Z, 160%Z))])
   = [[(0%nat, 0%nat, 144 # 96, (96%Z, 96%Z)); (0%nat, 1%nat, 1, (144%Z, 160%Z))]].
+Proof. vm_compute. reflexivity. Qed.
+
+(* ================================================================== round 4 (review of the proof half): the paths that
+   were inside abstract per-sample functions or fixed by fiat, now explicit (model C12/Flat.v, proofs C12/LemmasFlat.v;
+   harness entry `frun`, evaluated against the real Single-instance / BottomUp inference models on every run).
+
+   Domain note (review finding 5): every theorem of this file that quantifies over `mi : option nat` holds of the MODEL
+   for `Some 0` too, but the model is tied to the code for max_instances = None or >= 1 only (with max_instances = 0
+   CentroidCrop builds (0, 2) rows that `_generate_crops` does not skip and crop_bboxes raises IndexError); the harness
+   declares "max_instances >= 1" in its assumptions. *)
+From SV Require Import C12.Flat C12.LemmasFlat.
+
+Section FlatStatements.
+  Variables frame chan rpeak off peak : Type.
+  Variable cmaps : frame -> list chan.
+  Variable rough : chan -> option rpeak.
+  Variable plain : rpeak -> peak.
+  Variable offset : chan -> rpeak -> off.
+  Variable add : peak -> off -> peak.
+  Variable lpeak : Type.
+  Variable lrough : frame -> list (nat * rpeak).
+  Variable lplain : nat -> rpeak -> lpeak.
+  Variable lrefine : chan -> nat -> rpeak -> lpeak.
+
+  Notation gflat := (global_flat frame chan rpeak off peak cmaps rough plain offset add).
+  Notation gone := (global_one frame chan rpeak off peak cmaps rough plain offset add).
+  Notation sframes := (single_frames frame chan rpeak off peak cmaps rough plain offset add).
+  Notation sframes1 := (single_frames_one frame chan rpeak off peak cmaps rough plain offset add).
+  Notation lflat := (local_flat frame chan rpeak cmaps lpeak lrough lplain lrefine).
+  Notation lone := (local_one frame chan rpeak cmaps lpeak lrough lplain lrefine).
+
+  (* find_global_peaks, every step explicit: maps flattened to (samples*channels), rough peak per entry,
+     valid_idx = positions of the non-NaN entries (so every position depends on the NaN pattern of ALL samples),
+     patches gathered at valid_idx, offsets scattered back at valid_idx, reshape.  The batch result is every frame's
+     channels by themselves, with and without refinement, including the early return when the WHOLE batch is NaN. *)
+  Theorem c12_global_peaks_flat_is_per_frame : forall refinement C xs,
+    (forall y, In y xs -> length (cmaps y) = C) ->
+    gflat refinement C xs = map (gone refinement) xs.
+  Proof. apply global_flat_is_per_frame. Qed.
+
+  (* entry (b, c) of the reshaped result: the rough peak of channel c of sample b plus the offset computed on a patch
+     of THAT map — whatever the other samples' NaN pattern *)
+  Theorem c12_global_peaks_entry_refined_on_own_map : forall C xs b c x ch p,
+    (forall y, In y xs -> length (cmaps y) = C) ->
+    nth_error xs b = Some x -> nth_error (cmaps x) c = Some ch -> rough ch = Some p ->
+    exists row, nth_error (gflat true C xs) b = Some row /\
+                nth_error row c = Some (Some (add (plain p) (offset ch p))).
+  Proof. apply global_flat_entry. Qed.
+
+  (* the closed form of Batch.v (`single_batch`, patch index b * C + c written down directly; the theorem
+     c12_single_batch_is_per_frame above is about that closed form and is definitional) is what the explicit path computes *)
+  Theorem c12_global_peaks_flat_is_closed_form : forall C xs,
+    (forall y, In y xs -> length (cmaps y) = C) ->
+    gflat true C xs = single_batch frame rpeak peak chan cmaps rough (fun ch p => add (plain p) (offset ch p)) C xs.
+  Proof. apply global_flat_is_single_batch. Qed.
+
+  (* find_local_peaks with refinement (the `detect` of the top-down centroid stage and of bottom-up): the crop index
+     box_sample_inds = sample * channels + channel (c12_crop_index_own_sample: `patch_source`) applied to the batch's flat
+     rough peak list gives the flat list (Batch.flat_peaks) of every sample's OWN peaks, each refined on the sample's own
+     map of the peak's channel; so `detect := local_one refinement` in the top-down / bottom-up theorems above *)
+  Theorem c12_local_peaks_refined_on_own_map : forall refinement C xs,
+    (forall y, In y xs -> length (cmaps y) = C) ->
+    (forall y c p, In y xs -> In (c, p) (lrough y) -> (c < C)%nat) ->
+    lflat refinement C xs
+    = map (fun e => (fst e, Some (snd e))) (flat_peaks frame lpeak (lone refinement) 0%nat xs).
+  Proof. apply local_flat_is_per_sample. Qed.
+
+  Theorem c12_local_peaks_split_by_sample : forall refinement C xs b x,
+    (forall y, In y xs -> length (cmaps y) = C) ->
+    (forall y c p, In y xs -> In (c, p) (lrough y) -> (c < C)%nat) ->
+    nth_error xs b = Some x ->
+    map snd (filter (fun e => fst e =? b) (lflat refinement C xs)) = map Some (lone refinement x).
+  Proof. apply local_flat_split. Qed.
+
+  (* ---- SingleInstancePredictor: records (frame_idx, video_idx, [instance]) of a batch; fx = false is the code of
+     the pinned AND of the current tree, fx = true the proposed repair C12_F62 *)
+  Theorem c12_single_frames_is_per_frame : forall fx rf C (fs : list (src frame)),
+    (forall s, In s fs -> length (cmaps (s_img frame s)) = C) ->
+    sframes fx rf C fs = flat_map (sframes1 fx rf) fs.
+  Proof. apply single_frames_is_per_frame. Qed.
+
+  Theorem c12_single_frames_independent_of_batch_mates : forall fx rf C (xs1 : list (src frame)) x xs2,
+    (forall s, In s (xs1 ++ [x] ++ xs2) -> length (cmaps (s_img frame s)) = C) ->
+    sframes fx rf C (xs1 ++ [x] ++ xs2) = sframes fx rf C xs1 ++ sframes fx rf C [x] ++ sframes fx rf C xs2.
+  Proof. apply single_frames_mates. Qed.
+
+  Theorem c12_single_frames_independent_of_batch_size : forall fx rf C n (fs : list (src frame)), (0 < n)%nat ->
+    (forall s, In s fs -> length (cmaps (s_img frame s)) = C) ->
+    single_frames_stream frame chan rpeak off peak cmaps rough plain offset add fx rf C n fs
+    = flat_map (sframes1 fx rf) fs.
+  Proof. apply single_frames_any_batch_size. Qed.
+
+  Theorem c12_single_frames_permutation : forall fx rf C (fs fs' : list (src frame)),
+    (forall s, In s fs -> length (cmaps (s_img frame s)) = C) -> Permutation fs fs' ->
+    Permutation (sframes fx rf C fs) (sframes fx rf C fs').
+  Proof. apply single_frames_perm. Qed.
+
+  Theorem c12_single_frames_indices : forall fx rf C (fs : list (src frame)) f v insts,
+    (forall s, In s fs -> length (cmaps (s_img frame s)) = C) ->
+    In (f, v, insts) (sframes fx rf C fs) ->
+    exists s, In s fs /\ f = s_fidx frame s /\ v = s_vidx frame s /\ insts = [gone rf (s_img frame s)].
+  Proof. apply single_frames_indices. Qed.
+
+  (* "frames with no detections yield no instances", single-instance models.  Unrepaired code: FALSE (finding F62,
+     c12_single_empty_frame_refuted below).  Strongest true statement: a record whose frame is outside the selector
+     (selector_F62 = code unrepaired AND every node NaN) comes from a frame with at least one detection. *)
+  Theorem c12_single_empty_frame_partial : forall fx rf C (fs : list (src frame)) f v insts,
+    (forall s, In s fs -> length (cmaps (s_img frame s)) = C) ->
+    In (f, v, insts) (sframes fx rf C fs) ->
+    exists s, In s fs /\ f = s_fidx frame s /\ v = s_vidx frame s /\
+      (selector_F62 peak fx (gone rf (s_img frame s)) = false ->
+       exists ch p, In ch (cmaps (s_img frame s)) /\ rough ch = Some p).
+  Proof. apply single_empty_frame_partial. Qed.
+
+  (* with the repair the clause holds in full: no record for the empty frame, batch-mates' records unchanged *)
+  Theorem c12_single_empty_frame_repaired : forall rf C (xs1 : list (src frame)) x xs2,
+    (forall s, In s (xs1 ++ [x] ++ xs2) -> length (cmaps (s_img frame s)) = C) ->
+    (forall ch, In ch (cmaps (s_img frame x)) -> rough ch = None) ->
+    sframes true rf C [x] = [] /\
+    sframes true rf C (xs1 ++ [x] ++ xs2) = sframes true rf C (xs1 ++ xs2).
+  Proof. apply single_empty_frame_repaired. Qed.
+End FlatStatements.
+
+(* F62: single-instance model, unrepaired code, batch of two frames: frame 8 has no detection on either node and still
+   yields one (all-NaN) instance; with the repair it yields no record and frame 7's record is the same *)
+Theorem c12_single_empty_frame_refuted :
+  let sf := fun fx => single_frames sframe (nat * bool) nat nat (nat * option nat) (fun x => x) h_rough
+                        (fun p => (p, None)) (fun ch _ => fst ch) (fun i o => (fst i, Some o)) fx true 2%nat
+                        (map mk_ssrc [(7%nat, 0%nat, [(0%nat, true); (1%nat, false)]);
+                                      (8%nat, 0%nat, [(2%nat, false); (3%nat, false)])]) in
+  (forall ch, In ch [(2%nat, false); (3%nat, false)] -> h_rough ch = None) /\
+  sf false = [(7%nat, 0%nat, [[Some (0%nat, Some 0%nat); None]]); (8%nat, 0%nat, [[None; None]])] /\
+  sf true = [(7%nat, 0%nat, [[Some (0%nat, Some 0%nat); None]])].
+Proof.
+  split; [|split]; [|vm_compute; reflexivity|vm_compute; reflexivity].
+  intros ch [<-|[<-|[]]]; reflexivity.
+Qed.
+
+Section BottomUpStatements.
+  Variables frame peak inst : Type.
+  Variable detect : frame -> list peak.
+  Variable group : frame -> list peak -> list inst.
+  Variable visible : inst -> bool.
+  Variable score : inst -> Q.
+  Notation buf := (bottomup_frames frame peak inst detect group visible score).
+  Notation buf1 := (bottomup_frames_one frame peak inst detect group visible score).
+  Notation limit := (bu_limit inst score).
+
+  (* BottomUpPredictor records after _make_labeled_frames_from_generator (all-NaN instances dropped, max_instances) *)
+  Theorem c12_bottomup_frames_is_per_frame : forall mi (fs : list (src frame)), buf mi fs = map (buf1 mi) fs.
+  Proof. apply bottomup_frames_is_per_frame. Qed.
+
+  Theorem c12_bottomup_frames_independent_of_batch_mates : forall mi (xs1 : list (src frame)) x xs2,
+    buf mi (xs1 ++ [x] ++ xs2) = buf mi xs1 ++ buf mi [x] ++ buf mi xs2.
+  Proof. apply bottomup_frames_mates. Qed.
+
+  Theorem c12_bottomup_frames_independent_of_batch_size : forall mi n (fs : list (src frame)), (0 < n)%nat ->
+    bottomup_frames_stream frame peak inst detect group visible score mi n fs = map (buf1 mi) fs.
+  Proof. apply bottomup_frames_any_batch_size. Qed.
+
+  Theorem c12_bottomup_frames_permutation : forall mi (fs fs' : list (src frame)), Permutation fs fs' ->
+    Permutation (buf mi fs) (buf mi fs').
+  Proof. apply bottomup_frames_perm. Qed.
+
+  Theorem c12_bottomup_frames_indices : forall mi (fs : list (src frame)) b s, nth_error fs b = Some s ->
+    nth_error (buf mi fs) b
+    = Some (s_fidx frame s, s_vidx frame s,
+            bu_frame inst visible score mi (group (s_img frame s) (detect (s_img frame s)))).
+  Proof. apply bottomup_frames_indices. Qed.
+
+  (* max_instances = k (bottom-up: stable descending sort by score + slice, per frame): the min(k, n) highest-scoring
+     instances, in decreasing order; k >= n keeps all (re-ordered) *)
+  Theorem c12_bottomup_max_instances_keeps_highest : forall k l,
+    exists dropped,
+      Permutation l (limit (Some k) l ++ dropped) /\ length (limit (Some k) l) = Nat.min k (length l) /\
+      (forall a b, In a (limit (Some k) l) -> In b dropped -> Qle (score b) (score a)).
+  Proof. apply bu_limit_keeps_highest. Qed.
+
+  Theorem c12_bottomup_max_instances_in_decreasing_order : forall k l a b t1 t2,
+    limit (Some k) l = t1 ++ a :: b :: t2 -> Qle (score b) (score a).
+  Proof. apply bu_limit_sorted. Qed.
+
+  Theorem c12_bottomup_max_instances_not_exceeded_keeps_all : forall k l,
+    (length l <= k)%nat -> Permutation l (limit (Some k) l).
+  Proof. apply bu_limit_all. Qed.
+
+  (* a frame without peaks yields a record without instances and leaves its batch-mates' records unchanged.
+     `forall img, group img [] = []` (PAFScorer.predict on no peaks returns no instance) is a hypothesis about the
+     per-sample code: observed by the harness on every empty frame, not proved *)
+  Theorem c12_bottomup_empty_frame : forall mi (xs1 : list (src frame)) x xs2,
+    (forall img, group img [] = []) -> detect (s_img frame x) = [] ->
+    buf mi [x] = [(s_fidx frame x, s_vidx frame x, [])] /\
+    buf mi (xs1 ++ [x] ++ xs2) = buf mi xs1 ++ [(s_fidx frame x, s_vidx frame x, [])] ++ buf mi xs2.
+  Proof. apply bottomup_empty_frame. Qed.
+End BottomUpStatements.
+
+(* centroid-only top-down: the empty frame (review finding 4 i) *)
+Theorem c12_centroid_only_empty_frame : forall (frame peak : Type) (detect : frame -> list peak) (value : peak -> Q)
+    (ginst : Type) (gmatch : frame -> peak -> option ginst) mi M (fs : list (src frame)) b s,
+  nth_error fs b = Some s -> detect (s_img frame s) = [] ->
+  exists row, nth_error (centroid_only_batch frame peak detect value ginst gmatch mi M fs) b
+              = Some (s_fidx frame s, s_vidx frame s, row, repeat None M)
+              /\ somes row = [].
+Proof. exact centroid_only_empty_frame. Qed.
+
+Print Assumptions c12_global_peaks_flat_is_per_frame.
+Print Assumptions c12_global_peaks_entry_refined_on_own_map.
+Print Assumptions c12_global_peaks_flat_is_closed_form.
+Print Assumptions c12_local_peaks_refined_on_own_map.
+Print Assumptions c12_local_peaks_split_by_sample.
+Print Assumptions c12_single_frames_is_per_frame.
+Print Assumptions c12_single_frames_independent_of_batch_mates.
+Print Assumptions c12_single_frames_independent_of_batch_size.
+Print Assumptions c12_single_frames_permutation.
+Print Assumptions c12_single_frames_indices.
+Print Assumptions c12_single_empty_frame_partial.
+Print Assumptions c12_single_empty_frame_repaired.
+Print Assumptions c12_single_empty_frame_refuted.
+Print Assumptions c12_bottomup_frames_is_per_frame.
+Print Assumptions c12_bottomup_frames_independent_of_batch_mates.
+Print Assumptions c12_bottomup_frames_independent_of_batch_size.
+Print Assumptions c12_bottomup_frames_permutation.
+Print Assumptions c12_bottomup_frames_indices.
+Print Assumptions c12_bottomup_max_instances_keeps_highest.
+Print Assumptions c12_bottomup_max_instances_in_decreasing_order.
+Print Assumptions c12_bottomup_max_instances_not_exceeded_keeps_all.
+Print Assumptions c12_bottomup_empty_frame.
+Print Assumptions c12_centroid_only_empty_frame.
+
+(* non-vacuity.  Bottom-up, batch of 3 (batch size 3), max_instances 1: frame 8 has no peak; frame 7 has peaks 0 1 2 and
+   instances 0 (score 1/2), 1 (3/4); frame 9 one instance *)
+Example ex_bottomup_frames :
+  frun (CBu (Some 1%nat) 3%nat
+          [(7%nat, 0%nat, ([0%nat; 1%nat; 2%nat], [(0%nat, 1 # 2); (1%nat, 3 # 4)]));
+           (8%nat, 1%nat, ([], []));
+           (9%nat, 0%nat, ([0%nat; 1%nat], [(0%nat, 1 # 3)]))])
+  = RBu [[(7%nat, 0%nat, [0%nat; 1%nat; 2%nat], [1%nat]); (8%nat, 1%nat, [], []); (9%nat, 0%nat, [0%nat; 1%nat], [0%nat])]].
+Proof. vm_compute. reflexivity. Qed.
+
+(* single instance, refinement on, 2 nodes, batch size 2: the NaN node of frame 7 shifts valid_idx of frame 9's nodes
+   (flat positions 2 and 3 are gathered as crops 1 and 2) and every node is still refined on its own map; frame 8
+   (second batch) is all-NaN: no crop call, one all-NaN instance (unrepaired) *)
+Example ex_single_frames :
+  frun (CSi false true 2%nat 2%nat
+          [(7%nat, 0%nat, [(70%nat, true); (71%nat, false)]); (9%nat, 0%nat, [(90%nat, true); (91%nat, true)]);
+           (8%nat, 1%nat, [(80%nat, false); (81%nat, false)])])
+  = RSi [([0%nat; 2%nat; 3%nat],
+          [(7%nat, 0%nat, [[Some (70%nat, Some 70%nat); None]]);
+           (9%nat, 0%nat, [[Some (90%nat, Some 90%nat); Some (91%nat, Some 91%nat)]])]);
+         ([], [(8%nat, 1%nat, [[None; None]])])].
+Proof. vm_compute. reflexivity. Qed.
+
+Example ex_box_sample_inds :
+  frun (CBox 3%nat [[0%nat; 2%nat]; []; [1%nat; 1%nat; 2%nat]]) = RBox [0%nat; 2%nat; 7%nat; 7%nat; 8%nat].
 Proof. vm_compute. reflexivity. Qed.
